@@ -119,6 +119,7 @@ type lineResult struct {
 type agg struct {
 	mu         sync.Mutex
 	runs       int
+	deep       int // world runs drawn from the deep zone (plans two to three times longer)
 	faultFree  int
 	bootFailed int
 	simSeconds float64
@@ -154,6 +155,9 @@ func (a *agg) addFrom(property string, r *lineResult, engine string) {
 	a.mu.Lock()
 	defer a.mu.Unlock()
 	a.runs++
+	if engine != "sched" && r.Index&world.DeepBit != 0 {
+		a.deep++
+	}
 	if r.FaultFree {
 		a.faultFree++
 	}
@@ -213,7 +217,7 @@ func runWorkers(bin, property string, master uint64, workers, maxRuns int, deadl
 			defer wg.Done()
 			out := filepath.Join(tmp, fmt.Sprintf("out-%s-%d.jsonl", eng, w))
 			prog := filepath.Join(tmp, fmt.Sprintf("prog-%s-%d", eng, w))
-			spec := map[string]interface{}{"property": property, "master": master, "from": w, "stride": workers, "max": per, "deadline": deadline.Unix(), "out": out, "progress": prog}
+			spec := map[string]interface{}{"property": property, "master": master, "from": w, "stride": workers, "max": per, "deadline": deadline.Unix(), "out": out, "progress": prog, "deep": deepTier}
 			errs[w] = runWorkerProc(bin, spec, prog, deadline.Add(60*time.Second))
 			f, err := os.Open(out)
 			if err != nil {
@@ -395,6 +399,10 @@ func ownedBy(property, assertion string) bool {
 	return false
 }
 
+// deepTier: the thorough tier draws every other world run from the deep zone of the index space
+// (plans two to three times longer); the quick tier never does, so its runs stay comparable.
+var deepTier bool
+
 // engineRuns counts the runs each engine contributed to the current check.
 var engineRuns = map[string]int{}
 
@@ -498,6 +506,7 @@ func cmdCheck(id, tier string) int {
 	maxRuns, budget := spec.QuickRuns, time.Duration(spec.QuickSecs)*time.Second
 	if tier == "thorough" {
 		maxRuns, budget = 1<<30, time.Duration(envInt("VERIF_THOROUGH_S", spec.ThoroughS))*time.Second
+		deepTier = true
 	}
 	if n := envInt("VERIF_RUNS", 0); n > 0 {
 		maxRuns = n
@@ -924,6 +933,7 @@ func writeEvidence(id, tier string, master uint64, a *agg, spec propSpec, wall, 
 			"first_seed_index":     0,
 			"components":           componentsOf(spec),
 			"runs_by_engine":       engineRuns,
+			"deep_zone_runs":       a.deep,
 			"toolchain":            "go1.26.8 (testing/synctest, testing/cryptotest); /repo built with -tags verif",
 		},
 		"assumptions": []string{
